@@ -60,6 +60,7 @@ def run(chk, replay):
     chk.model("MC_Claim2.tla", "MC_Claim2.cfg")
     scs = [gen_claim.claim_scenario(chk.seed * 32452843 + i, sends=True) for i in range(350 if quick else 5000)] \
         + bypass_scenarios(chk.seed, 60 if quick else 600)
+    scs = scs + gen_claim.reactive(chk.tier)       # applications that call into their CA from inside a delivery callback
     traces = [scen_claim.run(sc)[0] for sc in scs]
     chk.validate("ClaimTrace.tla", "ClaimTrace.cfg", traces, "main", nontrivial=nontrivial)
 
